@@ -102,7 +102,7 @@ PROPS = {
              'equal-length fixed arrays, copy_from target never None); copy_from clears before copying and the union '
              'copies _discriminated; nothing is stored through the source.',
              'equality of encodings after the copy for all values',
-             'ownership/escape rule on copy paths, ladder coverage by predicate abstraction'),
+             'ownership/escape rule on copy paths, ladder coverage by predicate abstraction', claimed=True),
     'C12': P('prophyc accepts only what back-ends realise',
              'Each documented composability rule D1..D9 has an enforcement site (a rejection whose guard covers the '
              'forbidden set, or no grammar production) on each front-end path; existing enforcement sites keep their truth '
